@@ -14,7 +14,7 @@
 From Coq Require Import List Bool Arith ZArith.
 Import ListNotations.
 From Stab.model Require Import Base StatusM Readiness StageStat Engine.
-From Stab.proofs Require Import EngineLegal RecoverP EngineEx.
+From Stab.proofs Require Import SynP EngineLegal RecoverP EngineEx.
 
 Theorem C01_crash_is_prefix : forall orc s id k d,
   delivery_commits orc s id true = Some d ->
@@ -52,6 +52,17 @@ Theorem C01_choice_claimant_replanned : forall s id i k st g,
     /\ ~ In i (siblings_not_started s i g).
 Proof. exact replan_choice_claimant. Qed.
 
+(* synthetic (before / after / on-failure) stages are created atomically with their parent's plan: in EVERY commit of
+   EVERY handler, in every state, a stage row is added only together with the processed mark of the message being
+   handled and the store of the stage the new rows belong to, and the new rows are fresh children of that stage -
+   a crash cut falls before or after the whole set, and a redelivery after it is a duplicate (C02_dup_noop) *)
+Theorem C01_synthetic_stages_atomic : forall orc s r c,
+  In c (h_commits (handle orc s r)) ->
+  forallb nadd c = true \/
+  exists i, existsb (is_mark (q_id r)) c = true /\ existsb (puts_stage i) c = true /\
+            forall ch, In (OAdd ch) c -> stage_fresh ch /\ y_parent (s_syn ch) = Some i.
+Proof. intros orc s r c H. pose proof (adds_handle orc s r) as A. unfold ADDS in A. rewrite Forall_forall in A. apply (A c H). Qed.
+
 Theorem C01_crash_commits_legal : forall orc s id k,
   running_task_in_running_stage s -> ~ delivers_jump s (DeliverCut id k) ->
   pairwise_legal s (step_trace orc s (DeliverCut id k)).
@@ -72,7 +83,19 @@ Example C01_witness :
   map s_ctx (w_stages final) = [[]; [(1, 7%Z)]].
 Proof. vm_compute. repeat split. Qed.
 
+(* non-vacuity for the synthetic-stage theorem: the parent's plan commit is the third commit of its StartStage
+   delivery (poll, claim, plan): cut before it no child row exists, cut after it the before stage exists AND its
+   StartStage is queued; the run ends with all four stages SUCCEEDED *)
+Example C01_synthetic_witness :
+  let pre := run ok_oracle ex_syn [Submit; Deliver 1 true] in
+  length (w_stages (step ok_oracle pre (DeliverCut 2 2))) = 2 /\
+  length (w_stages (step ok_oracle pre (DeliverCut 2 3))) = 3 /\
+  map q_msg (w_queue (step ok_oracle pre (DeliverCut 2 3))) = [MStartStage 0 0; MStartStage 2 0] /\
+  statuses (drain ok_oracle 200 pre) = (SUCCEEDED, [SUCCEEDED; SUCCEEDED; SUCCEEDED; SUCCEEDED]).
+Proof. vm_compute. repeat split. Qed.
+
 Print Assumptions C01_crash_is_prefix.
 Print Assumptions C01_claim_plan_recovered.
 Print Assumptions C01_crash_commits_legal.
+Print Assumptions C01_synthetic_stages_atomic.
 Print Assumptions C01_choice_claimant_replanned.
